@@ -23,6 +23,7 @@ type opSpec struct {
 	Len     int    `json:"len"`
 	Ctx     string `json:"ctx"` // bg | pre | cancel | timeout
 	CtxNs   int64  `json:"ctxNs"`
+	After   string `json:"after,omitempty"` // "cancel": the caller cancels the context once the call has returned (defer cancel())
 }
 
 type endSpec struct {
@@ -58,6 +59,12 @@ func gen(r *harn.Rng, tier string) interface{} {
 			o.Len = r.Pick(1, 3, 10, 40, 300)
 		} else {
 			o.Len = r.Pick(1, 4, 16, 64, 512)
+		}
+		if r.Bool(0.08) {
+			o.Len = 0
+		}
+		if r.Bool(0.6) {
+			o.After = "cancel"
 		}
 		switch r.Intn(10) {
 		case 0:
@@ -179,7 +186,9 @@ func run(env *simrt.Env, sci interface{}) {
 		default:
 			ctx, cancel = context.WithCancel(context.Background())
 		}
-		_ = cancel
+		if spec.After == "cancel" {
+			defer cancel()
+		}
 		res.ctx = ctx
 		k := 0
 		if write {
@@ -329,6 +338,26 @@ func run(env *simrt.Env, sci interface{}) {
 			}
 		}
 	}
+	// nothing in flight on a direction: the wrapped connection carries no deadline there, whatever
+	// happened to the contexts of finished calls afterwards
+	for e := 0; e < 2; e++ {
+		if faulty[e] {
+			continue
+		}
+		rd, wd := ends[e].deadlines()
+		for k, dl := range []time.Time{rd, wd} {
+			idle := true
+			for _, r := range results[e][k] {
+				if !r.returned {
+					idle = false
+				}
+			}
+			if idle && !dl.IsZero() {
+				env.Fail("C17/leftover-deadline", "at quiescence no %s is in flight on end %d, yet the wrapped connection carries a %s deadline (%v)", opName(k == 1), e, opName(k == 1), dl)
+				return
+			}
+		}
+	}
 	// data conservation: what the wrapper reported equals what the wrapped connection moved
 	for e := 0; e < 2; e++ {
 		if faulty[0] || faulty[1] {
@@ -364,9 +393,13 @@ func run(env *simrt.Env, sci interface{}) {
 		}
 		if sc.Flavor == "netctx-packet" {
 			_, _, received, moved := packets[e].Snapshot()
+			// empty datagrams (and datagrams truncated into an empty buffer) carry no bytes: a call
+			// that reports (0, context error) for one of them has "transferred none" in the
+			// property's sense, so they are left out on both sides of the comparison
+			received, moved = nonEmpty(received), nonEmpty(moved)
 			var repR, repW [][]byte
 			for _, r := range results[e][0] {
-				if r.returned && r.err == nil {
+				if r.returned && r.err == nil && len(r.data) > 0 {
 					repR = append(repR, r.data)
 				}
 			}
@@ -431,6 +464,16 @@ func run(env *simrt.Env, sci interface{}) {
 			}
 		}
 	}
+}
+
+func nonEmpty(a [][]byte) [][]byte {
+	var out [][]byte
+	for _, x := range a {
+		if len(x) > 0 {
+			out = append(out, x)
+		}
+	}
+	return out
 }
 
 func max0(n int) int {
